@@ -165,3 +165,16 @@ PROPS["C14"] = dict(
            min_cases=20000),
     ],
 )
+
+PROPS["C03"] = dict(
+    rule="three exhaustive TLC configurations: shapes (12 operators x every ordered pair of shapes, distinct ids), values (per operator and "
+         "dtype every ordered pair of the special-value catalogue whose result is determined), types (mixed dtypes: no crash); each case "
+         "executed through the operator API, a single-node model and an initializer-fed model run twice; non-trivial = expected value "
+         "with more than one element or an expected error",
+    assumptions=["IEEE tables of spec/Values.tla", "symbolic two's-complement domain (q,r) of spec/Values.tla"],
+    stages=lambda tier: [
+        mc("shapes", "MC_C03.tla", "MC_C03_shapes_%s.cfg" % tier, min_cases=2000),
+        mc("values", "MC_C03.tla", "MC_C03_values.cfg", min_cases=1000),
+        mc("types", "MC_C03.tla", "MC_C03_types.cfg", min_cases=100),
+    ],
+)
